@@ -323,3 +323,8 @@ for _id in ("C05", "C06", "C07", "C13"):
         "conditionals with nothing left inside are dropped, everything else including what is returned stays - the function set is the set "
         "of functions with protocol content, select clauses are sorted, locals are numbered per condition, an inverted early return is written in one canonical form; 39 of 41 recorded harmless "
         "rewrites are quiet.)")
+
+CHECKS["C17"]["text"] = CHECKS["C17"]["text"].replace(
+    "close_during_add_leaks. Partial twice:",
+    "close_during_add_leaks; F17's and F19's are add_twice_leaks and failed_add_leaves_watches (the clause is false for those "
+    "schedules in the model exactly as in the implementation). Partial twice:")
